@@ -65,6 +65,20 @@ _ACTORS = [
     ("gy", ['(g=>{ g.next().then(v=>print("@gy3",v)); g.next().then(v=>print("@gy4",v)); g.next().then(v=>print("@gy5",v)); })'
             '((async function*(){ print("@gy0"); yield 1; print("@gy1"); yield await 2; print("@gy2"); })());'],
      ["gy0", "gy1", "gy2", "gy3", "gy4", "gy5"], []),
+    # async generator request queue: requests made while an earlier return / throw request is still being settled
+    # (fresh generator, completed generator with a pending promise as return value, generator suspended at a yield inside try/finally)
+    ("gr", ['(g=>{ g.return("a").then(v=>print("@gr1",v.value,v.done)); g.next().then(v=>print("@gr2",v.value,v.done)); })'
+            '((async function*(){ print("@grX"); yield 1; })());'],
+     ["gr1", "gr2"], ["grX"]),
+    ("gc", ['(g=>{ g.next().then(v=>{ print("@gc1",v.done); g.return(new Promise(r=>Promise.resolve().then(()=>r("b")))).then(v=>print("@gc2",v.value,v.done)); '
+            'g.next().then(v=>print("@gc3",v.done)); }); })((async function*(){ print("@gc0"); })());'],
+     ["gc0", "gc1", "gc2", "gc3"], []),
+    ("gt", ['(g=>{ g.throw("e").then(()=>print("@gtX"),e=>print("@gt1",e)); g.next().then(v=>print("@gt2",v.done)); })'
+            '((async function*(){ print("@gtY"); yield 1; })());'],
+     ["gt1", "gt2"], ["gtX", "gtY"]),
+    ("gq", ['(g=>{ g.next().then(v=>print("@gq1",v.value)); g.return("r").then(v=>print("@gq2",v.value,v.done)); g.next().then(v=>print("@gq3",v.done)); })'
+            '((async function*(){ try { yield 1; print("@gqX"); } finally { print("@gq0"); } })());'],
+     ["gq0", "gq1", "gq2", "gq3"], ["gqX"]),
     # for await over a sync iterable / an async iterable / closed early by break (async and sync iterator)
     ("fs", ['(async()=>{ for await (const x of [Promise.resolve(1), 2]) print("@fs"+x); print("@fs9"); })();'],
      ["fs1", "fs2", "fs9"], []),
